@@ -102,6 +102,17 @@ func (r *Runner) OpenPaths() map[string]bool {
 	return m
 }
 
+// HideWriterTo makes synthetic sources behave like an *os.File source (copied in 32 KiB
+// chunks) instead of exposing bytes.Reader's WriteTo (guard of finding F-29).
+var HideWriterTo bool
+var OnHidden func()
+
+type plainReadSeekCloser struct{ r *bytes.Reader }
+
+func (p plainReadSeekCloser) Read(b []byte) (int, error)         { return p.r.Read(b) }
+func (p plainReadSeekCloser) Seek(o int64, w int) (int64, error) { return p.r.Seek(o, w) }
+func (plainReadSeekCloser) Close() error                         { return nil }
+
 type memReadSeekCloser struct{ *bytes.Reader }
 
 func (memReadSeekCloser) Close() error { return nil }
@@ -128,10 +139,18 @@ func memberSource(ms []Member) func() (config.FileConfig, error) {
 			h.Size = int64(len(data))
 		}
 		return config.FileConfig{
-			GetFile: func() (io.ReadSeekCloser, error) { return memReadSeekCloser{bytes.NewReader(data)}, nil },
-			Info:    h.FileInfo(),
-			Path:    m.Path,
-			Link:    m.Link,
+			GetFile: func() (io.ReadSeekCloser, error) {
+				if HideWriterTo {
+					if OnHidden != nil && len(data) > 32*1024 {
+						OnHidden()
+					}
+					return plainReadSeekCloser{bytes.NewReader(data)}, nil
+				}
+				return memReadSeekCloser{bytes.NewReader(data)}, nil
+			},
+			Info: h.FileInfo(),
+			Path: m.Path,
+			Link: m.Link,
 		}, nil
 	}
 }
@@ -365,3 +384,6 @@ func Mutating(op string) bool {
 	}
 	return true
 }
+
+// MemberSourceFor exposes the synthetic member source to property code.
+func MemberSourceFor(ms []Member) func() (config.FileConfig, error) { return memberSource(ms) }
